@@ -54,6 +54,10 @@ def case_strategy(draw, big=False):
     # a 1 V source among several
     if len(case['sources']) >= 2 and draw(st.booleans()):
         case['sources'][draw(st.integers(0, len(case['sources']) - 1))]['v'] = [1.0, 0.0]
+    # a voltage of magnitude exactly 1 that is not 1+0j (a pure phase shift)
+    if draw(st.integers(0, 3)) == 0:
+        case['sources'][draw(st.integers(0, len(case['sources']) - 1))]['v'] = \
+            list(draw(st.sampled_from([(0.0, 1.0), (-1.0, 0.0), (0.0, -1.0), (0.6, 0.8), (-0.8, 0.6), (0.6, -0.8)])))
     topo, objs = gen.stand_in_topology(case)
     npl = len(topo.pulses)
     lds = []
